@@ -136,16 +136,18 @@ Definition off_iso (tz : option Z) : list Z :=
   match tz with
   | None => []
   | Some o => (if o <? 0 then dash else plus) :: to_dec 2 (Z.abs o / 3600) ++ colon :: to_dec 2 (Z.abs o mod 3600 / 60)
+                ++ (if Z.abs o mod 60 =? 0 then [] else colon :: to_dec 2 (Z.abs o mod 60))
   end.
 
-(* datetime(y, m, d, H, M, Sc, us, tzinfo).isoformat() for offsets that are whole minutes *)
+(* datetime(y, m, d, H, M, Sc, us, tzinfo).isoformat() for offsets that are whole seconds (+HH:MM, or +HH:MM:SS when
+   the offset is not a whole number of minutes) *)
 Definition datetime_iso (y m d H M Sc us : Z) (tz : option Z) : list Z :=
   date_iso y m d ++ tee :: time_iso H M Sc ++ frac_iso us ++ off_iso tz.
 
 Definition valid_time (H M Sc us : Z) : bool :=
   (0 <=? H) && (H <? 24) && (0 <=? M) && (M <? 60) && (0 <=? Sc) && (Sc <? 60) && (0 <=? us) && (us <? 1000000).
 Definition valid_off (tz : option Z) : bool :=
-  match tz with None => true | Some o => (-86400 <? o) && (o <? 86400) && (o mod 60 =? 0) end.
+  match tz with None => true | Some o => (-86400 <? o) && (o <? 86400) end.
 
 (* the model's VDatetime: wall-clock microseconds since 0001-01-01T00:00:00, and the offset in seconds *)
 Definition dt_us (y m d H M Sc us : Z) : Z :=
@@ -163,17 +165,26 @@ Definition parse_off (s : list Z) : option (option Z) :=
   match s with
   | [] => Some None
   | sg :: r =>
-      if Nat.eqb (length r) 5 && ((sg =? plus) || (sg =? dash)) && (nth 2 r 0 =? colon) then
-        match of_dec 0 (firstn 2 r), of_dec 0 (skipn 3 r) with
-        | Some h, Some mi =>
-            if (h <? 24) && (mi <? 60) then Some (Some ((if sg =? dash then -1 else 1) * (h * 3600 + mi * 60))) else None
-        | _, _ => None
-        end
+      if ((sg =? plus) || (sg =? dash)) && (nth 2 r 0 =? colon) then
+        if Nat.eqb (length r) 5 then
+          match of_dec 0 (firstn 2 r), of_dec 0 (skipn 3 r) with
+          | Some h, Some mi =>
+              if (h <? 24) && (mi <? 60) then Some (Some ((if sg =? dash then -1 else 1) * (h * 3600 + mi * 60))) else None
+          | _, _ => None
+          end
+        else if Nat.eqb (length r) 8 && (nth 5 r 0 =? colon) then
+          match of_dec 0 (firstn 2 r), of_dec 0 (firstn 2 (skipn 3 r)), of_dec 0 (skipn 6 r) with
+          | Some h, Some mi, Some sc =>
+              if (h <? 24) && (mi <? 60) && (sc <? 60)
+              then Some (Some ((if sg =? dash then -1 else 1) * (h * 3600 + mi * 60 + sc))) else None
+          | _, _, _ => None
+          end
+        else None
       else None
   end.
 
 (* datetime.fromisoformat restricted to what isoformat writes (T separator, seconds, optional six-digit
-   fraction, optional +HH:MM offset): whenever it answers, fromisoformat answers the same *)
+   fraction, optional +HH:MM or +HH:MM:SS offset): whenever it answers, fromisoformat answers the same *)
 Definition datetime_parse (s : list Z) : option (Z * Z * Z * Z * Z * Z * Z * option Z) :=
   match date_parse (firstn 10 s) with
   | Some (y, m, d) =>
